@@ -69,6 +69,12 @@ def specOf (rules : List RuleSpec) (k : Key) : RuleSpec :=
   | some s => s
   | none => { key := k, kind := 0 }
 
+/-- input rules issue nothing and discovered dependencies point at input rules (`Program.WF`) -/
+def wf (rules : List RuleSpec) : Bool :=
+  rules.all fun s =>
+    (s.kind != 0 || (s.statics.isEmpty && s.whens.isEmpty && s.discs.isEmpty)) &&
+    s.discs.all (fun d => (specOf rules d.2).kind == 0)
+
 def program (rules : List RuleSpec) : Program where
   sig env k := sigOf (specOf rules k) env
   valid env k v := validOf (specOf rules k) env v
